@@ -59,6 +59,8 @@ def run_property(prop: str, tier: str):
     t0 = time.time()
     reg = build_registry()
     timeout = 10 if tier == 'quick' else 60
+    if tier != 'quick':
+        os.environ['PYVC_CALL_CANARY'] = '1'      # per-call vacuity guard for assumed contracts (see calls.call_by_contract)
     functions, obligations, unsupported, errors = [], [], [], []
     src_of = {}
     # the property's own functions, plus (transitively) every function whose contract they are verified against
@@ -105,6 +107,7 @@ def run_property(prop: str, tier: str):
     res = solve_all(obligations, timeout_s=timeout, cross_check=(tier == 'thorough')) if obligations else {}
     failed, unknown, by_backend, solver_seconds = [], [], {}, 0.0
     canaries = {}
+    call_canaries = {}
     baseline = load_baseline()
     from . import solve as _solve
     proved_queries = set(baseline.get('__query_hashes__', {}).get(prop, []))
@@ -125,6 +128,9 @@ def run_property(prop: str, tier: str):
     for o in obligations:
         v, backend, secs, model = res[o.name]
         solver_seconds += secs
+        if o.kind == 'canary' and '/callcanary.' in o.name:
+            call_canaries[o.name] = (v == 'unsat')
+            continue
         if o.kind == 'canary':
             canaries.setdefault(o.fn, []).append(v == 'unsat')
             continue
@@ -181,6 +187,10 @@ def run_property(prop: str, tier: str):
                 unverified.append('SETCARD law of set comprehensions: checked by lean (lemmas/SetCard.lean) on this run')
         except Exception as e:
             errors.append('lean could not be run on lemmas/SetCard.lean: %r' % e)
+    for nm_, refuted in sorted(call_canaries.items()):
+        if refuted and '/callcanary.after@' in nm_ and not call_canaries.get(nm_.replace('/callcanary.after@', '/callcanary.before@'), False):
+            errors.append('vacuous: the assumed contract used at %s is contradictory there (the state after the call is refutable, the state '
+                          'before it is not): everything behind the call would be discharged vacuously' % nm_.replace('/callcanary.after@', ' call '))
     for fn_, vs in canaries.items():
         # a dead path is fine (e.g. an arm excluded by the precondition); a function ALL of whose normal exits are
         # unreachable has a contradictory precondition or invariant: the proof would be vacuous
